@@ -4,7 +4,11 @@
 
 pub mod shim_core {
 use vstd::prelude::*;
-pub struct IoError;
+// std::io::Error is used as itself (opaque to the verifier)
+#[verifier::external_type_specification]
+#[verifier::external_body]
+pub struct ExIoError(std::io::Error);
+pub type IoError = std::io::Error;
 pub struct BE;
 
 // big-endian decoding of a byte sequence at an offset (the mathematical spec, not code)
